@@ -98,6 +98,9 @@ class Replayer:
                 lab = mm.group(1)
             if "WARNING: DATA RACE" in raw:
                 lab = "DATA RACE"
+            if lab.startswith("test timed out"):
+                # the native harness never finished: go test's own deadline fired
+                return {"end": "timeout", "label": lab, "observed": [], "raw": raw[-4000:]}
             return {"end": "crash", "label": lab, "observed": [], "raw": raw[-4000:]}
         o = json.loads(m.group(1))
         o["raw"] = raw[-3000:]
